@@ -47,6 +47,20 @@ def scenarios(ctx):
             s['meta']['overlapping_threads'] = True
             s['meta']['k'] = 0 if kind != 'none' else s['meta']['k']
             scs.append(s)
+    # a profiled generator that is closed before it is exhausted and whose clean-up code fails (raises, or ends the program): the wrapper's
+    # bracket around the close must be taken back on that way out too
+    GEN_PROG = ('import sys\ntry:\n    profile\nexcept NameError:\n    def profile(f):\n        return f\n\n\n'
+                '@profile\ndef numbers():\n    try:\n        yield 1\n        yield 2\n    finally:\n        %s\n\n\n'
+                'g = numbers()\nnext(g)\n%s\nprint("done")\n')
+    for mode in ('l', 'lb', 'lm'):
+        for kind, cleanup, closing in (('none', 'raise RuntimeError("clean-up fails")', 'try:\n    g.close()\nexcept RuntimeError:\n    pass'),
+                                       ('error', 'raise ValueError("clean-up fails")', 'g.close()'),
+                                       ('exit', 'sys.exit(3)', 'g.close()'),
+                                       ('none', 'raise RuntimeError("clean-up fails")', 'try:\n    del g\nexcept RuntimeError:\n    pass')):
+            s = kplib.scenario(mode, kind, files={'prog.py': GEN_PROG % (cleanup, closing)})
+            s['meta']['generator_cleanup_fails'] = True
+            s['meta']['k'] = 0 if kind != 'none' else s['meta']['k']
+            scs.append(s)
     # an imported module selected for auto-profiling (-p): every registration call the rewrite inserts switches the profiler on, by count,
     # for the rest of the run — it has to be off again when main returns or raises
     for mode in ('l', 'lm', 'lb'):
